@@ -534,8 +534,8 @@ Qed.
 Lemma attempt_never_hangs : forall pl rq i, pl_timeout pl = true -> attempt_outcome pl rq i <> OHang.
 Proof.
   intros pl rq i Ht. unfold attempt_outcome. rewrite Ht.
-  destruct (rq_script rq i); try discriminate;
-    repeat match goal with |- context [if ?b then _ else _] => destruct b end; discriminate.
+  destruct (rq_script rq i) as [c| | | | |]; destruct (ctx_done (rq_cancel rq) i); cbn [orb];
+    try discriminate; destruct (zmem c (pl_fcodes pl)); discriminate.
 Qed.
 
 Lemma handler_never_hangs : forall pl rq,
@@ -612,4 +612,54 @@ Proof.
   destruct (IH (fun r Hr => Hh r (or_intror Hr))) as [IH1 IH2].
   cbn [app List.length filter]. split; [rewrite IH1; reflexivity|].
   destruct (presult_failed (po_result (pool_handle pl true rq))); cbn [List.length]; rewrite IH2; reflexivity.
+Qed.
+
+(** * the response the client gets *)
+
+Lemma pool_visible_permitted : forall pl rq,
+  po_visible (pool_handle pl true rq) = visible_of rq (handler_trace pl rq).
+Proof.
+  intros pl rq. unfold pool_handle. cbn [po_visible]. rewrite pool_not_rejected, pool_inner. reflexivity.
+Qed.
+
+(** whenever a request ends with a failure result other than failureCode, the client gets
+    the gateway's own failure response for that result - never the backend response of
+    any attempt (in particular not a response whose body could not be fetched) *)
+Lemma failure_response_is_gateways : forall pl rq r s, pool_ok pl ->
+  po_result (pool_handle pl true rq) = PResult r s -> r <> RNone -> r <> RFailureCode ->
+  po_visible (pool_handle pl true rq) = VGateway s.
+Proof.
+  intros pl rq r s Hok Hr Hn Hf.
+  rewrite pool_visible_permitted. destruct (pool_handle_permitted pl rq) as [Er _].
+  rewrite Er in Hr. unfold visible_of. rewrite (handler_final pl rq Hok) in *.
+  unfold attempt_outcome in *.
+  destruct (rq_script rq (n_attempts (handler_trace pl rq) - 1)) as [c| | | | |]; cbn [publishes].
+  - destruct (zmem c (pl_fcodes pl)); cbn in Hr; inversion Hr; subst; contradiction.
+  - destruct (ctx_done _ _); cbn in Hr; inversion Hr; reflexivity.
+  - destruct (ctx_done _ _); [cbn in Hr; inversion Hr; reflexivity|].
+    destruct (pl_timeout pl); cbn in Hr; inversion Hr; reflexivity.
+  - cbn in Hr. discriminate.
+  - cbn in Hr. inversion Hr. reflexivity.
+  - destruct (ctx_done _ _ || pl_timeout pl); cbn in Hr; inversion Hr; reflexivity.
+Qed.
+
+(** and a backend response reaches the client only as the response of the LAST attempt, with
+    the empty result or failureCode *)
+Lemma backend_response_is_last_attempts : forall pl rq j, pool_ok pl ->
+  po_visible (pool_handle pl true rq) = VBackend j ->
+  j = (po_attempts (pool_handle pl true rq) - 1)%nat /\
+  exists s, po_result (pool_handle pl true rq) = PResult RNone s \/
+            po_result (pool_handle pl true rq) = PResult RFailureCode s.
+Proof.
+  intros pl rq j Hok Hv.
+  rewrite pool_visible_permitted in Hv. destruct (pool_handle_permitted pl rq) as [Er Ea].
+  rewrite Er, Ea. unfold visible_of in Hv. rewrite (handler_final pl rq Hok) in *.
+  unfold attempt_outcome in *.
+  destruct (rq_script rq (n_attempts (handler_trace pl rq) - 1)) as [c| | | | |]; cbn [publishes] in Hv.
+  - destruct (zmem c (pl_fcodes pl)); inversion Hv; split; try reflexivity; exists c; cbn; auto.
+  - destruct (ctx_done _ _); discriminate.
+  - destruct (ctx_done _ _); [discriminate|]. destruct (pl_timeout pl); discriminate.
+  - discriminate.
+  - discriminate.
+  - destruct (ctx_done _ _ || pl_timeout pl); discriminate.
 Qed.
